@@ -87,6 +87,12 @@ def run(ctx):
             continue
         d, left = rets[0].value
         txid, wtxid, raw = rules.dict_get(d, "txid"), rules.dict_get(d, "wtxid"), rules.dict_get(d, "raw")
+        flag_test = tm.cmp("eq", n0, 0)
+        if any(tm.contains(v_, lambda t: isinstance(t, T) and t.op == "ite" and tm.contains(t.args[0], lambda u: isinstance(u, T) and tm.veq(u, flag_test))) for v_ in (txid, wtxid, raw)):
+            # the code asks the segwit question in another form than the one this mode fixes (e.g. through a reader object's
+            # truth value): the mode did not take effect, the terms below are not the legacy / segwit terms -- C04.6 decides
+            R.stat("structural_id_terms_%s" % mode, "not read: the segwit test is not `count == 0 and rest` (decided by C04.6)")
+            continue
         want_raw_bytes = tm.slc(buf, None, tm.add([tm.length(buf), tm.mul([-1, tm.length(left)])]))
         # C04.3 raw delimited by length
         R.check("C04.3", "TERM-EQ", fi, "%s: raw = buffer[:len(buffer)-len(leftover)]" % mode,
